@@ -60,6 +60,56 @@ Proof.
 Qed.
 Print Assumptions c18_unknown_absent_no_panic.
 
+(* ALL strings n: only the exact spellings in the tables are known.  A string that is not one of
+   set_register's patterns is absent everywhere (memoize_register, the checked read under All,
+   set_register, register_is_valid) ... *)
+Theorem c18_exact_names_only : forall c, In c all_contexts -> forall n, ~ In n (accepted c) ->
+  memoize c n = None /\ is_valid c n VAll = false /\
+  (forall rf, get_register c rf n VAll = Ret None) /\ (forall rf v, set_reg c rf n v = Ret None).
+Proof.
+  intros c Hc n Hn. pose proof (all_facts c Hc) as F. pose proof (not_accepted_unknown c F n Hn) as M.
+  destruct (unknown_absent c F n M) as [A [B _]].
+  split; [exact M|]. split; [cbn [is_valid]; rewrite M; reflexivity|]. split; assumption.
+Qed.
+Print Assumptions c18_exact_names_only.
+
+(* ... in particular names are case-sensitive: a string that differs from a known name or alias
+   only in ASCII case ("RIP", "Eip", "SP", "X0", "G_R14") is unknown - absent, refused, never a panic.
+   (default_memoize_register's comparison is regenerated from the source as [ct_memo_cmp];
+   get_register_always / set_register match string literals.) *)
+Theorem c18_case_sensitive : forall c, In c all_contexts -> forall n m,
+  In m (accepted c) -> n <> m -> map lower n = map lower m ->
+  memoize c n = None /\ is_valid c n VAll = false /\
+  (forall rf, get_register c rf n VAll = Ret None) /\ (forall rf v, set_reg c rf n v = Ret None).
+Proof.
+  intros c Hc n m Hm Hne Hl. apply (c18_exact_names_only c Hc).
+  exact (case_variant_not_accepted c (all_facts c Hc) n m Hm Hne Hl).
+Qed.
+Print Assumptions c18_case_sensitive.
+
+(* what the checker does with a case-insensitive default_memoize_register: "RIP" becomes known to
+   memoize_register (as rip) while get_register_always does not know it, so the checked read
+   reaches unreachable!(); [diagnose] reports the table *)
+Definition n_RIP : name := [82; 73; 80].
+Definition n_rip : name := [114; 105; 112].
+Definition amd64_nocase : ctx_table :=
+  {| ct_name := ct_name ctx_amd64; ct_variant := ct_variant ctx_amd64; ct_width := ct_width ctx_amd64;
+     ct_registers := ct_registers ctx_amd64; ct_get := ct_get ctx_amd64; ct_set := ct_set ctx_amd64;
+     ct_memo := ct_memo ctx_amd64; ct_memo_cmp := 1; ct_groups := ct_groups ctx_amd64;
+     ct_sp_name := ct_sp_name ctx_amd64; ct_ip_name := ct_ip_name ctx_amd64;
+     ct_sp_acc := ct_sp_acc ctx_amd64; ct_ip_acc := ct_ip_acc ctx_amd64;
+     ct_fields := ct_fields ctx_amd64; ct_gpr := ct_gpr ctx_amd64 |}.
+Theorem c18_case_insensitive_memoize_rejected :
+  memoize amd64_nocase n_RIP = Some n_rip /\
+  get_register amd64_nocase (fun _ _ => 0) n_RIP VAll = Panic 1 /\
+  set_reg amd64_nocase (fun _ _ => 0) n_RIP 1 = Ret None /\
+  memoize ctx_amd64 n_RIP = None /\ In n_rip (accepted ctx_amd64) /\ map lower n_RIP = map lower n_rip /\
+  diagnose amd64_nocase <> [].
+Proof.
+  repeat split; try (vm_compute; reflexivity); [vm_compute; tauto | vm_compute; discriminate].
+Qed.
+Print Assumptions c18_case_insensitive_memoize_rejected.
+
 (* the stack / instruction pointer names read the location of the dedicated accessors; the
    accessors' bodies ([ct_sp_acc], [ct_ip_acc]) are regenerated from the source as expressions
    and evaluated by [aeval] *)
@@ -111,7 +161,7 @@ Definition l_arm_cpsr : loc := mkloc [99; 112; 115; 114] (-1) 32 (-1).
 Definition arm_thumb_masked : ctx_table :=
   {| ct_name := ct_name ctx_arm; ct_variant := ct_variant ctx_arm; ct_width := ct_width ctx_arm;
      ct_registers := ct_registers ctx_arm; ct_get := ct_get ctx_arm; ct_set := ct_set ctx_arm;
-     ct_memo := ct_memo ctx_arm; ct_groups := ct_groups ctx_arm;
+     ct_memo := ct_memo ctx_arm; ct_memo_cmp := ct_memo_cmp ctx_arm; ct_groups := ct_groups ctx_arm;
      ct_sp_name := ct_sp_name ctx_arm; ct_ip_name := ct_ip_name ctx_arm;
      ct_sp_acc := ct_sp_acc ctx_arm;
      ct_ip_acc := ALet n_pc (ACast (ALoc l_arm_pc) 32 64)
@@ -165,7 +215,7 @@ Print Assumptions c18_enumerations.
 Definition sparc_before_fix : ctx_table :=
   {| ct_name := ct_name ctx_sparc; ct_variant := ct_variant ctx_sparc; ct_width := ct_width ctx_sparc;
      ct_registers := ct_registers ctx_sparc; ct_get := ct_get ctx_sparc; ct_set := ct_set ctx_sparc;
-     ct_memo := []; ct_groups := [];
+     ct_memo := []; ct_memo_cmp := 0; ct_groups := [];
      ct_sp_name := ct_sp_name ctx_sparc; ct_ip_name := ct_ip_name ctx_sparc;
      ct_sp_acc := ct_sp_acc ctx_sparc; ct_ip_acc := ct_ip_acc ctx_sparc; ct_fields := ct_fields ctx_sparc;
      ct_gpr := ct_gpr ctx_sparc |}.
